@@ -75,7 +75,8 @@ def pkt_of(p):
 
 def enc_case(p):
     ty, ns, pid, data = pkt_of(p)
-    c = {'kind': 'enc', 'p': p, 'exc': '', 'text': [], 'atts': []}
+    c = {'kind': 'enc', 'p': p, 'exc': '', 'text': [], 'atts': [],
+         'text2': [], 'atts2': [], 'intact': True}
     try:
         # a binary packet is built the way the library builds it: as an
         # EVENT / ACK whose payload holds byte strings (the constructor
@@ -88,6 +89,15 @@ def enc_case(p):
             e = [e]
         c['text'] = chars(e[0])
         c['atts'] = [btok(bytes(a)) for a in e[1:]]
+        # encoding is a function of the packet: doing it again gives the
+        # same frames, and the application's payload object is left as it was
+        e2 = pkt.encode()
+        if not isinstance(e2, list):
+            e2 = [e2]
+        c['text2'] = chars(e2[0])
+        c['atts2'] = [btok(bytes(a)) for a in e2[1:]]
+        c['intact'] = p['data'].get('k') == 'absent' or \
+            tree(data) == p['data']
     except Exception as ex:
         c['exc'] = type(ex).__name__
     return c
